@@ -48,6 +48,8 @@ THEOREMS = ["Cppcheck.PPCond.ifeval_eq_spec_paren",
             "Cppcheck.PPMacro.included_lines_eq_spec", "Cppcheck.PPMacro.included_lines_eq_spec_nested",
             "Cppcheck.PPMacro.runLines_included_eq_runC", "Cppcheck.PPMacro.runLines_included_lines_eq_spec",
             "Cppcheck.PPMacro.expand_function_macro_eq_subst",
+            "Cppcheck.PPMacro.expand_function_macro_nested", "Cppcheck.PPMacro.expand_indirect_nesting",
+            "Cppcheck.PPMacro.expand_indirect_nesting_inherit", "Cppcheck.PPMacro.expand_arg_inherit_counterexample",
             "Cppcheck.PPMacro.pass_independent_of_history", "Cppcheck.PPMacro.pass_same_dui_same_result",
             "Cppcheck.PPMacro.D_applied", "Cppcheck.PPMacro.U_applied", "Cppcheck.PPMacro.U_applied_counterexample"]
 MODULES = ["Cppcheck.Props.C11"]
@@ -278,6 +280,56 @@ def gen_macro_source(rng, size, hashes=True):
             lines.append(gen_body(rng, [], names, False, rng.randrange(1, 6)))
     lines.append(gen_body(rng, [], names, False, rng.randrange(1, 6)))
     return lines
+
+
+NESTED_MACROS = [
+    ("INC", ["x"], "( ( x ) + 1 )"), ("DBL", ["y"], "( ( y ) * 2 )"), ("NEG", ["z"], "( - ( z ) )"),
+    ("MAX", ["a", "b"], "( ( a ) > ( b ) ? ( a ) : ( b ) )"), ("ABS", ["v"], "( ( v ) < 0 ? - ( v ) : ( v ) )"),
+    ("ADD", ["p", "q"], "( ( p ) + ( q ) )"), ("TWICE", ["w"], "( w + w )"),
+]
+
+
+def gen_nested_call(rng, macros, depth, objs):
+    """a nested invocation: depth levels of function-like macros in argument position (F(G(F(x))), F(G(H(F(x)))), ...)"""
+    if depth == 0:
+        r = rng.random()
+        if objs and r < 0.3:
+            return [rng.choice(objs)]
+        return [rng.choice(["3", "7", "n", "k", "1"])]
+    nm, ps, body = rng.choice(macros)
+    out = [nm, "("]
+    deep = rng.randrange(len(ps))
+    for i, p in enumerate(ps):
+        if i:
+            out.append(",")
+        out += gen_nested_call(rng, macros, depth - 1 if i == deep else rng.choice([0, 0, max(0, depth - 2)]), objs)
+    out.append(")")
+    return out
+
+
+def gen_nested_source(rng):
+    macros = rng.sample(NESTED_MACROS, rng.choice([2, 2, 3]))
+    lines = ["#define %s(%s) %s" % (nm, " , ".join(ps), body) for nm, ps, body in macros]
+    objs = []
+    if rng.random() < 0.5:
+        lines.append("#define N %d" % rng.randrange(2, 9)); objs.append("N")
+    if rng.random() < 0.3:
+        lines.append("#define M %s ( N )" % macros[0][0] if objs else "#define M 5"); objs.append("M")
+    # always one indirect pattern F ( G ( F ( x ) ) ) with F != G (every level must be replaced), then random nestings
+    f, g = macros[0], macros[1]
+    def one(m, inner):
+        nm, ps, body = m
+        pos = rng.randrange(len(ps))
+        out = [nm, "("]
+        for i in range(len(ps)):
+            if i:
+                out.append(",")
+            out += inner if i == pos else [rng.choice(["1", "2", "n"])]
+        return out + [")"]
+    lines.append("int j = %s ;" % " ".join(one(f, one(g, one(f, [rng.choice(["3", "k"])])))))
+    for k in range(rng.choice([1, 2, 3])):
+        lines.append("int i%d = %s ;" % (k, " ".join(gen_nested_call(rng, macros, rng.choice([2, 3, 3, 4]), objs))))
+    return "\n".join(lines) + "\n"
 
 
 def fix_line(toks):
@@ -1002,6 +1054,12 @@ def run(ctx, res):
         res.count("pp-macro-source")
     pp_tie(ctx, res, exe, drv, cases, "preprocess-macros", 1500 if thorough else 120)
     spec_pp_vs_gcc(ctx, res, drv, cases[:(600 if thorough else 60)], "macros")
+    # nested function-like invocations in argument position, depth 2-4 over 2-3 macros (6.10.3.1: arguments are macro replaced on
+    # their own, nothing inherited from the enclosing invocation): simplecpp == model, and every case against gcc
+    cases = [(gen_nested_source(rng), [], []) for i in range(1200 if thorough else 150)]
+    res.count("pp-nested-source", len(cases))
+    pp_tie(ctx, res, exe, drv, cases, "preprocess-nested-invocations", len(cases))
+    spec_pp_vs_gcc(ctx, res, drv, cases[:(300 if thorough else 40)], "nested-invocations")
     cases = []
     for i in range(n_pp):
         src = gen_cond_source(rng, rng.choice([1, 2, 3, 5]))
